@@ -18,6 +18,47 @@ PYMOD = z3.Function('pymod', I, I, I)
 PYMUL = z3.Function('pymul', I, I, I)
 
 
+def lin_decompose(t):
+    """(c0, {atom_id: (coef, atom)}) with t == c0 + sum coef*atom, or None."""
+    out = {}
+    c0 = [0]
+
+    def go(t, k):
+        if z3.is_int_value(t):
+            c0[0] += k * t.as_long()
+            return True
+        if z3.is_app(t):
+            kind = t.decl().kind()
+            if kind == z3.Z3_OP_ADD:
+                return all(go(c, k) for c in t.children())
+            if kind == z3.Z3_OP_SUB:
+                ch = t.children()
+                return go(ch[0], k) and all(go(c, -k) for c in ch[1:])
+            if kind == z3.Z3_OP_UMINUS:
+                return go(t.arg(0), -k)
+            if kind == z3.Z3_OP_MUL:
+                ch = t.children()
+                nums = [c for c in ch if z3.is_int_value(c)]
+                rest = [c for c in ch if not z3.is_int_value(c)]
+                if len(rest) == 1:
+                    kk = k
+                    for n in nums:
+                        kk *= n.as_long()
+                    return go(rest[0], kk)
+                if not rest:
+                    v = k
+                    for n in nums:
+                        v *= n.as_long()
+                    c0[0] += v
+                    return True
+        cur = out.get(t.get_id())
+        out[t.get_id()] = ((cur[0] if cur else 0) + k, t)
+        return True
+    if not go(t, 1):
+        return None
+    return c0[0], {i: ca for i, ca in out.items() if ca[0] != 0}
+
+
 def _mul_facts(b, d):
     """Linear instances of facts about the product b*d (true of multiplication)."""
     m = PYMUL(b, d)
@@ -284,71 +325,65 @@ class ExprMixin:
         return self.binop(type(e.op).__name__, a, b)
 
     def mul_terms(self, x, y):
-        """x*y; symbolic*symbolic is abstracted by PYMUL with linear facts."""
+        """x*y.  symbolic*symbolic is linearised: the multiplier b is kept, the
+        other factor is decomposed into a linear combination of atoms, and only
+        PYMUL(b, atom) symbols remain (so distributivity holds by construction)."""
         p = self.p
         xz, yz = z3.simplify(x), z3.simplify(y)
         if z3.is_int_value(xz) or z3.is_int_value(yz):
             return xz * yz
         if self.binders and _mentions(xz, yz, [v for b_ in self.binders for v in b_['vars']]):
             return xz * yz
-        key = ('mul', str(xz), str(yz))
-        cache = p.__dict__.setdefault('_divmod', {})
-        if key in cache:
-            return cache[key]
-        m = PYMUL(xz, yz)
-        p.assume(m == PYMUL(yz, xz))
-        p.__dict__.setdefault('exact_facts', []).append(m == xz * yz)
-        for b, d in ((xz, yz), (yz, xz)):
-            for fact in _mul_facts(b, d):
-                p.assume(fact)
-            terms = p.__dict__.setdefault('_divterms', {}).setdefault(str(b), [])
-            for (a2, q2, r2) in terms:
-                dd = d - q2
-                p.assume(PYMUL(b, d) - PYMUL(b, q2) == PYMUL(b, dd))
-                for fact in _mul_facts(b, dd):
+        mult = p.__dict__.setdefault('multipliers', {})
+        # prefer as multiplier an operand that already is one (e.g. the step)
+        if yz.get_id() in mult and xz.get_id() not in mult:
+            xz, yz = yz, xz
+        return self.product(xz, yz)
+
+    def product(self, b, d):
+        """Linear expression for b*d over the atoms PYMUL(b, atom)."""
+        p = self.p
+        dec = lin_decompose(d)
+        if dec is None:
+            dec = (0, {d.get_id(): (1, d)})
+        c0, atoms = dec
+        mult = p.__dict__.setdefault('multipliers', {})
+        reg = mult.setdefault(b.get_id(), (b, {}))[1]
+        expr = c0 * b if c0 else z3.IntVal(0)
+        for aid, (coef, atom) in atoms.items():
+            if aid not in reg:
+                m = PYMUL(b, atom)
+                reg[aid] = (atom, m)
+                for fact in _mul_facts(b, atom):
                     p.assume(fact)
-            terms.append((PYMUL(b, d), d, z3.IntVal(0)))
-        cache[key] = m
-        return m
+            expr = expr + coef * reg[aid][1]
+        return z3.simplify(expr)
 
     def divmod_terms(self, a, b):
-        """Fresh q, r with a == b*q + r and Python's floor semantics."""
+        """q, r with a == b*q + r and Python's floor semantics."""
         p = self.p
         az, bz = z3.simplify(a), z3.simplify(b)
         if z3.is_int_value(az) and z3.is_int_value(bz) and bz.as_long() != 0:
             q, r = divmod(az.as_long(), bz.as_long())
             return z3.IntVal(q), z3.IntVal(r)
-        key = ('divmod', str(az), str(bz))
+        key = ('divmod', az.get_id(), bz.get_id())
         cache = p.__dict__.setdefault('_divmod', {})
         q, r = PYDIV(az, bz), PYMOD(az, bz)
         numeral = z3.is_int_value(bz)
-        # symbolic divisor: the product b*q is abstracted by the uninterpreted
-        # PYMUL(b, q) with *linear* instances of the ring/order axioms (below);
-        # the exact nonlinear fact is kept aside for confirming counter-models.
-        prod = bz * q if numeral else PYMUL(bz, q)
-        defs = z3.And(az == prod + r,
-                      z3.Implies(bz > 0, z3.And(0 <= r, r < bz)),
-                      z3.Implies(bz < 0, z3.And(bz < r, r <= 0)))
-        if self.binders and _mentions(az, bz, [v for b_ in self.binders for v in b_['vars']]):
-            # under a quantifier: the definition travels with the quantified body
-            if not numeral:
-                defs = z3.And(defs, PYMUL(bz, q) == bz * q)
+        under = self.binders and _mentions(az, bz, [v for b_ in self.binders for v in b_['vars']])
+        if under:
+            # under a quantifier: the (exact) definition travels with the quantified body
+            defs = z3.And(az == bz * q + r,
+                          z3.Implies(bz > 0, z3.And(0 <= r, r < bz)),
+                          z3.Implies(bz < 0, z3.And(bz < r, r <= 0)))
             self.binders[-1]['defs'].append(defs)
             return q, r
         if key in cache:
             return cache[key]
-        p.assume(defs)
-        if not numeral:
-            p.__dict__.setdefault('exact_facts', []).append(PYMUL(bz, q) == bz * q)
-            terms = p.__dict__.setdefault('_divterms', {}).setdefault(str(bz), [])
-            for fact in _mul_facts(bz, q):
-                p.assume(fact)
-            for (a2, q2, r2) in terms:
-                d = q - q2
-                p.assume(PYMUL(bz, q) - PYMUL(bz, q2) == PYMUL(bz, d))
-                for fact in _mul_facts(bz, d):
-                    p.assume(fact)
-            terms.append((az, q, r))
+        prod = bz * q if numeral else self.product(bz, q)
+        p.assume(z3.And(az == prod + r,
+                        z3.Implies(bz > 0, z3.And(0 <= r, r < bz)),
+                        z3.Implies(bz < 0, z3.And(bz < r, r <= 0))))
         cache[key] = (q, r)
         return q, r
 
@@ -414,6 +449,8 @@ class ExprMixin:
             return self.set_binop(op, a, b)
         if ka == PYTUPLE and kb == PYTUPLE and op == 'Add':
             return self.make_tuple(list(a.py) + list(b.py))
+        if (ka == NONE or kb == NONE) and not self.term_mode:
+            self.raise_(TypeError, f'unsupported operand type(s) for {op}: {ka} and {kb}')
         if ka == CONST and kb == CONST:
             import operator
             fn = {'Add': operator.add, 'Sub': operator.sub, 'Mult': operator.mul,
@@ -462,7 +499,12 @@ class ExprMixin:
         left = self.eval(e.left)
         result = None
         for i, (op, rhs) in enumerate(zip(e.ops, e.comparators)):
-            right = self.eval(rhs)
+            if isinstance(op, (ast.In, ast.NotIn)) and isinstance(rhs, (ast.List, ast.Tuple, ast.Set)) \
+                    and not any(isinstance(x, ast.Starred) for x in rhs.elts):
+                # membership in a literal: no heap object needed
+                right = self.make_tuple([self.eval(x) for x in rhs.elts])
+            else:
+                right = self.eval(rhs)
             t = self.compare(type(op).__name__, left, right)
             if self.term_mode:
                 result = t if result is None else z3.And(result, t)
